@@ -30,6 +30,9 @@ ASSUMPTIONS = [
     "first, loops over one-shot `tick(domain).sample(every signal)` waits; it must be resumed exactly at every active edge of the "
     "domain (clk_hit, reset level, values from just before the edge) and, for an asynchronous-reset domain, when the reset rises "
     "(no clk_hit, reset active, values from just before the reset took effect).",
+    "A third testbench, added after the hopping one, loops over : it must report 'n ticks seen' or "
+    "DomainReset exactly as n one-shot tick waits would (a reset asserted by the earlier testbench in the instant of a clock edge "
+    "is seen at the next tick as an active reset).",
     "Trigger combinations (edge|delay, changed|delay): the wake-up instant is the earlier of the two; the result reports which "
     "fired; when both fall into the same instant the first element of the result (edge flag / sampled value) is not compared "
     "with the reference, only between process orders.",
@@ -42,7 +45,7 @@ COMPONENTS = {"real": ["amaranth.sim.Simulator / PySimEngine.step_design / advan
 EXPECTED_PROBES = ("sched", "tie", "zero_delay", "replaced_comb", "replaced_sync", "twins_same_instant", "coincident_domains",
                    "set_then_get", "tick_sample", "edge_wait", "changed_wait", "woken_by_testbench", "race_wait", "race_tie",
                    "race_won_by_signal", "race_won_by_delay", "tick_observed", "tick_observed_under_reset",
-                   "tick_completed_by_async_reset")
+                   "tick_completed_by_async_reset", "repeat_ticks", "repeat_interrupted_by_async_reset")
 HANG_IS_VIOLATION = True
 CHUNK = 4
 PARTS = ["s1", "s2", "s3", "r1", "r2", "out"]
@@ -95,7 +98,10 @@ def gen_prog_tl(seed, tier):
         ph = c["phase"] if c["phase"] is not None else half
         rst_proc = {"dom": d["name"], "at": ph + fl.randint(1, 8) * half}
     observer = fl.choice([None] + [d["name"] for d in prog["domains"]] * 2)
-    return {"kind": "prog_tl", "observer": observer, "rst_proc": rst_proc, "refused_clock": fl.choice([0, 0, 6, 10]), "prog": prog, "clocks": clocks, "steps": steps, "orders": orders,
+    # ... and one added *after* the hopping testbench, which loops over `tick(domain).repeat(n)` (documented as n one-shot waits
+    # that raise DomainReset if the domain is reset during the wait)
+    repeater = {"dom": fl.choice([d["name"] for d in prog["domains"]]), "n": fl.randint(1, 4)} if fl.random() < 0.5 else None
+    return {"kind": "prog_tl", "observer": observer, "repeater": repeater, "rst_proc": rst_proc, "refused_clock": fl.choice([0, 0, 6, 10]), "prog": prog, "clocks": clocks, "steps": steps, "orders": orders,
             "add_order": fl.choice([0, fl.randrange(1, 1 << 30)])}
 
 
@@ -793,6 +799,31 @@ def run_prog_tl(case):
             if obs_dom:
                 sim.add_testbench(observer, background=True)
 
+            rep = case.get("repeater")
+            got_rep, exp_rep = [], []
+            RS = {"count": 0, "done_this_hop": True}     # (armed only once the hopping testbench has reached its first await)
+
+            def rep_event(t_, clk_, rst_):
+                """one completion of the repeater's current one-shot wait"""
+                RS["done_this_hop"] = True
+                if rst_:
+                    exp_rep.append([t_, "reset"])
+                    RS["count"] = 0
+                else:
+                    RS["count"] += 1
+                    if RS["count"] == rep["n"]:
+                        exp_rep.append([t_, "done"])
+                        RS["count"] = 0
+
+            async def repeater(ctx):
+                from amaranth.sim import DomainReset
+                while True:
+                    try:
+                        await ctx.tick(rep["dom"]).repeat(rep["n"])
+                        got_rep.append([ctx.elapsed_time().femtoseconds, "done"])
+                    except DomainReset:
+                        got_rep.append([ctx.elapsed_time().femtoseconds, "reset"])
+
             async def tb(ctx):
                 now = 0
                 base = -1          # toggle instants up to `base` have happened (a phase-0 clock toggles at time 0, after the start)
@@ -812,6 +843,10 @@ def run_prog_tl(case):
                                 rise_seen[0] = True
                                 exp_obs.append([now, False, True, ref_vals()])
                                 P["tick_completed_by_async_reset"] = P.get("tick_completed_by_async_reset", 0) + 1
+                            if (rep and st["d"] == rep["dom"] and st["l"] and ref.doms[rep["dom"]]["async_reset"]
+                                    and not RS["done_this_hop"]):
+                                rep_event(now, False, True)
+                                P["repeat_interrupted_by_async_reset"] = P.get("repeat_interrupted_by_async_reset", 0) + 1
                             ctx.set(cds[st["d"]].rst, st["l"])
                             if st["l"]:
                                 F["arst" if ref.doms[st["d"]]["async_reset"] else "srst"] += 1
@@ -833,6 +868,10 @@ def run_prog_tl(case):
                             rch[rp["dom"]] = 1
                             P["process_reset_at_edge_instant"] = P.get("process_reset_at_edge_instant", 0) + 1
                         rise_seen[0] = False
+                        RS["done_this_hop"] = False
+                        if rep and (rep["dom"] in active or rch.get(rep["dom"])):
+                            rep_event(now, rep["dom"] in active, bool(ref.rst.get(rep["dom"], 0)) or bool(rch.get(rep["dom"])))
+                            P["repeat_ticks"] = P.get("repeat_ticks", 0) + 1
                         if obs_dom and (obs_dom in active or rch.get(obs_dom)):
                             exp_obs.append([now, obs_dom in active, bool(ref.rst.get(obs_dom, 0)) or bool(rch.get(obs_dom)), ref_vals()])
                             P["tick_observed"] = P.get("tick_observed", 0) + 1
@@ -846,7 +885,15 @@ def run_prog_tl(case):
                     compare(ctx, idx, now)
                     dig.add((st["k"], now, ref.observe()), state=(order is case["orders"][0]))
             sim.add_testbench(tb)
+            if rep:
+                sim.add_testbench(repeater, background=True)
             sim.run()
+            if rep and got_rep != exp_rep[:len(got_rep)] or (rep and len(exp_rep) - len(got_rep) > 1):
+                n = next((j for j, (a, b) in enumerate(zip(got_rep, exp_rep)) if a != b), min(len(got_rep), len(exp_rep)))
+                raise Violation("tick_repeat", n, {"order": order, "repeater": rep, "entry": n,
+                                                   "got": got_rep[n] if n < len(got_rep) else None,
+                                                   "expected": exp_rep[n] if n < len(exp_rep) else None,
+                                                   "fields": "[time fs, 'done' (n ticks seen) | 'reset' (DomainReset raised)]"})
             if obs_dom and got_obs != exp_obs:
                 n = next((j for j, (a, b) in enumerate(zip(got_obs, exp_obs)) if a != b), min(len(got_obs), len(exp_obs)))
                 raise Violation("tick_observations", n, {"order": order, "domain": obs_dom, "entry": n,
